@@ -32,6 +32,8 @@ def run(ctx):
                 "overflow and the saturation arm must yield the infinity of the exact result's sign; non-finite cases "
                 "follow IEEE semantics.")
     n = i64table.run(ctx, F)
+    ctx.explain("E-NUM.f64: F64 terminals are built from constants or through the normalising From<f64> only.")
+    i64table.check_f64_constructors(ctx, F)
     ctx.floor("E-TABLE.i64", "abstract cases of the I64 operators", n, 140)
     ctx.explain("E-TABLE.step: the recursive (Shannon expansion) step is interpreted on structured abstract operands -- inner nodes "
                 "with opaque or nested children in every relative level configuration (and every complement-tag "
